@@ -27,6 +27,8 @@ def extra_cases(tier):
     C.append(Case("VonMisesWingbox[symL_2x3]", F("structures.vonmises_wingbox", "VonMisesWingbox", surface=sw)))
     C.append(Case("WingboxFuelVol[symL_2x3]", F("structures.fuel_vol", "WingboxFuelVol", surface=sw)))
     C.append(Case("FuelLoads[symL_2x3]", F("structures.fuel_loads", "FuelLoads", surface=sw)))
+    C.append(Case("WingboxFuelVolDelta[symL_2x3]", F("structures.wingbox_fuel_vol_delta", "WingboxFuelVolDelta", surface=sw)))
+    C.append(Case("WingboxFuelVolDelta[full_2x3]", F("structures.wingbox_fuel_vol_delta", "WingboxFuelVolDelta", surface=K.surface(2, 3, False, fem_model_type="wingbox"))))
     C.append(Case("ComputePointMassLoads[symL_2x3]", F("structures.compute_point_mass_loads", "ComputePointMassLoads",
                                                        surface=dict(s, n_point_masses=1))))
     C.append(Case("ComputeThrustLoads[symL_2x3]", F("structures.compute_thrust_loads", "ComputeThrustLoads",
@@ -75,6 +77,8 @@ def extra_cases(tier):
 def family_of(case, ob):
     base = case.name.split("[")[0]
     m = ob.meta
+    if m["what"] == "input":
+        return "%s modifies its input %s in place path{%s}" % (base, m["of"], c01.stable_path(m["path"]))
     if m["what"] == "output":
         return "%s output %s depends on pre-state path{%s}" % (base, m["of"], c01.stable_path(m["path"]))
     return "%s partial d(%s)/d(%s) depends on pre-state path{%s}" % (base, m["of"], m["wrt"], c01.stable_path(m["path"]))
@@ -84,6 +88,8 @@ def replay_point(case, env, meta, tol=1e-9):
     """Real code: live Problem evaluated+linearised at another point, then at env, vs a fresh Problem at env."""
     r0 = partials.CompRunner(case.factory(dict(case.cfg)), prerun=False)
     vals = partials.inputs_from_env(r0, env)
+    if meta["what"] == "input":
+        return replay_input_kept(case, vals, meta)
     rng = np.random.default_rng(99)
     hv = case.nominal(r0, rng) if case.nominal else partials.default_nominal(r0, rng)
     hist = {n: np.array(hv.get(n, r0.defaults[n]), dtype=float).reshape(r0.shapes[n]) for n in r0.in_names}
@@ -116,6 +122,33 @@ def replay_point(case, env, meta, tol=1e-9):
                 float(np.max(np.abs(a))), len(history), d,
                 meta["of"] if meta["what"] == "output" else "d(%s)/d(%s)" % (meta["of"], meta["wrt"])))
     return worst[0] > tol, worst[1] or "identical after every history tried"
+
+
+def replay_input_kept(case, vals, meta):
+    """the real component in a real Problem: after run_model the component's own input vector must still hold what the
+    source delivered, and the partials OpenMDAO derives from it (also approximated ones) must be those of a second,
+    freshly transferred evaluation"""
+    import warnings
+
+    import openmdao.api as om
+
+    comp = case.factory(dict(case.cfg))
+    prob = om.Problem(reports=False)
+    ivc = om.IndepVarComp()
+    r0 = partials.CompRunner(case.factory(dict(case.cfg)), prerun=False)
+    for n in r0.in_names:
+        ivc.add_output(n, val=np.asarray(vals[n], dtype=float).reshape(r0.shapes[n]), units=r0.comp._var_rel2meta[n].get("units"))
+    prob.model.add_subsystem("ivc", ivc, promotes=["*"])
+    prob.model.add_subsystem("c", comp, promotes=["*"])
+    with warnings.catch_warnings():
+        warnings.simplefilter("ignore")
+        prob.setup(force_alloc_complex=True)
+        prob.run_model()
+    n = meta["of"]
+    given = np.asarray(vals[n], dtype=float).ravel()
+    held = np.asarray(comp._inputs[n], dtype=float).ravel()
+    d = float(np.abs(given - held).max())
+    return d > 1e-12 * max(1.0, float(np.abs(given).max())), "after run_model the component's input %s holds %s, the source delivered %s" % (n, np.round(held, 6), np.round(given, 6))
 
 
 def run(tier, seed, only=None):
